@@ -98,7 +98,7 @@ def run(scratch, obligations, extra_flags=(), capture_playback=False):
     Returns dict name -> result dict {verdict, checks, failed, covers, time_s, raw}."""
     crate = os.path.join(scratch.repo, "sentinel-core")
     timeout = max(o["timeout"] for o in obligations)
-    cmd = ["cargo", "kani", "-Z", "function-contracts", "-Z", "stubbing", "-Z", "unstable-options",
+    cmd = ["cargo", "kani", "-Z", "function-contracts", "-Z", "stubbing", "-Z", "unstable-options", "-Z", "restrict-vtable",
            "--harness-timeout", "%ds" % timeout,
            "--target-dir", scratch.target, "--output-format=terse", "--output-into-files", "--exact",
            "--no-assertion-reach-checks",
@@ -215,7 +215,7 @@ def triage(o, full, raw, whole_out):
 def playback(scratch, obligation):
     """Re-run one refuted harness with concrete playback printing; return (unit test text, decoded values)."""
     crate = os.path.join(scratch.repo, "sentinel-core")
-    cmd = ["cargo", "kani", "-Z", "function-contracts", "-Z", "stubbing", "-Z", "unstable-options",
+    cmd = ["cargo", "kani", "-Z", "function-contracts", "-Z", "stubbing", "-Z", "unstable-options", "-Z", "restrict-vtable",
            "-Z", "concrete-playback", "--concrete-playback=print",
            "--harness-timeout", "%ds" % obligation["timeout"],
            "--target-dir", scratch.target, "--exact",
